@@ -4,6 +4,7 @@ package main
 
 import (
 	"fmt"
+	"regexp"
 	"sort"
 	"strings"
 
@@ -375,10 +376,19 @@ var fieldAlias = map[string][]string{
 	"BasketDenom": {"Denom"}, "Iri": {}, "Url": {}, "Manager": {}, "Amount": {"Quantity", "Balance"}, "AskDenom": {"BankDenom"}, "Name": {}, "Curator": {}, "Admin": {}, "Issuer": {}, "Seller": {}, "Address": {},
 }
 
+var loopCarried = regexp.MustCompile(`[A-Za-z0-9_$]+\.L\d+/[A-Za-z_][A-Za-z0-9_]*\.[A-Z]`)
+
 func sameName(field, term string) []string {
 	// term of the form <Table>#n.<Column> (possibly wrapped by a conversion helper)
 	i := strings.LastIndex(term, "#")
 	if i < 0 {
+		// a field of a variable carried over from an earlier iteration of the scan loop (a row cached
+		// across iterations): nothing ties it to the element being listed in this iteration
+		if loopCarried.MatchString(term) {
+			if _, isCol := fieldAlias[field]; isCol || true {
+				return []string{"Q6: response field " + field + " is taken from a value carried over from an earlier iteration of the scan loop (" + term + "), not from a row fetched for the element listed in this iteration"}
+			}
+		}
 		return nil
 	}
 	rest := term[i+1:]
